@@ -1150,6 +1150,15 @@ func genQueries(r *hlib.Rng, f *dbfile, count int) []struct {
 		if r.Chance(1, 2) {
 			names = append(names, append([]string{"www", "x"}, n...))
 		}
+		if r.Chance(1, 3) {
+			// ten to fifteen labels below a declared name: the label-by-label search asks for one
+			// candidate key per label, and the applicable (wildcard) map is the last of many
+			deep := append([]string{}, n...)
+			for i := 9 + r.Intn(7); i > 0 && len(deep) < 40; i-- {
+				deep = append([]string{labelPool[r.Intn(len(labelPool)-3)]}, deep...)
+			}
+			names = append(names, deep)
+		}
 		if len(n) > 0 && r.Chance(1, 2) {
 			names = append(names, n[1:])
 		}
